@@ -3471,6 +3471,22 @@ class RoConstr:
         return constr_list
 
 
+def pad_columns(mask, num_col, shape, dtype):
+    """
+    Dependency mask (entries by random variables) with at least num_col
+    columns: random variables declared after the mask was created get
+    zero columns. A new zero mask is returned if mask is None.
+    """
+
+    if mask is None:
+        return np.zeros(shape, dtype=dtype)
+    if mask.shape[1] < num_col:
+        pad = np.zeros((mask.shape[0], num_col - mask.shape[1]),
+                       dtype=mask.dtype)
+        return np.hstack((mask, pad))
+    return mask
+
+
 class DecVar(Vars):
     """
     The DecVar class creates an object of generic variable array
@@ -3745,10 +3761,11 @@ class DecVarSub(VarSub):
             raise ValueError('Model mismatch.')
 
         self.fixed = False
-        if self.rand_adapt is None:
-            sup_model = self.dro_model.sup_model
-            self.rand_adapt = np.zeros((self.size, sup_model.vars[-1].last),
-                                       dtype=np.int8)
+        # the mask of the variable as it is now: this slice may have been
+        # created before other adapt() calls or before later rvar() calls
+        num_rand = self.dro_model.sup_model.vars[-1].last
+        self.rand_adapt = pad_columns(self.dvars.rand_adapt, num_rand,
+                                      (self.size, num_rand), np.int8)
 
         dec_indices = self.indices
         dec_indices = dec_indices.reshape((dec_indices.size, 1))
@@ -5107,10 +5124,9 @@ class DecRule:
         if self.model is not rvar.model.top:
             raise ValueError('Models mismatch.')
 
-        if self.depend is None:
-            self.depend = np.zeros((self.size,
-                                    self.model.sup_model.vars[-1].last),
-                                   dtype=int)
+        num_rand = self.model.sup_model.vars[-1].last
+        self.depend = pad_columns(self.depend, num_rand,
+                                  (self.size, num_rand), int)
 
         indices = rvar.get_ind()
         if ldr_indices is None:
@@ -5132,12 +5148,14 @@ class DecRule:
             return self.roaffine
         else:
             if self.depend is not None:
+                num_rand = self.model.sup_model.vars[-1].last
+                self.depend = pad_columns(self.depend, num_rand,
+                                          (self.size, num_rand), int)
                 num_ones = self.depend.sum()
                 var_coeff = self.model.dvar(num_ones)
                 self.var_coeff = var_coeff
                 row_ind = np.where(self.depend.flatten() == 1)[0]
                 col_ind = var_coeff.get_ind()
-                num_rand = self.model.sup_model.vars[-1].last
                 row = self.size * num_rand
                 col = self.model.rc_model.vars[-1].last
                 raffine_linear = csr_matrix((np.ones(num_ones),
